@@ -98,6 +98,15 @@ class Run:
         # abandoned attempt can still find the relay's pending-extend record alive
         w = World(loop, hops + 2, next_hop_timeout=c.get("nht", 10))
         self.w = w
+        if c.get("slow_join"):
+            # the admission hook (a coroutine "intended to be overwritten") really takes time on every node
+            for nd in w.nodes:
+                def slow(orig=nd.overlay.should_join_circuit, ms=c["slow_join"]):
+                    async def should_join_circuit(create_payload, previous_node_address):
+                        await asyncio.sleep(ms / 1000.0)
+                        return await orig(create_payload, previous_node_address)
+                    return should_join_circuit
+                nd.overlay.should_join_circuit = slow()
         manips = {m["nth"]: m for m in c["manips"]}
         attacker = default_eccrypto.generate_key("curve25519")
         origin = w.nodes[0]
@@ -121,6 +130,10 @@ class Run:
                 if cr is not None:
                     self.create_X[(fl.dst, fl.src, cell["circuit_id"])] = cr["key"]
                     self.creates.append((fl.src, fl.dst, bytes(fl.data)))
+                    if c.get("dup_create") and fl.origin is not None:
+                        # the network delivers every create request twice, back to back
+                        w.net.inject(fl.src, fl.dst, fl.data, note="create duplicated")
+                        self.applied.append(("dup_create", len(self.creates)))
                     return None
                 cd = parse_created(cell["message"])
                 if cd is None:
@@ -490,6 +503,8 @@ def _strategy():
         "nht": st.sampled_from([10, 10, 3]),
         "replay_create": st.sampled_from([None, None, None, 0, 1, 2]),
         "cid_of_exit": st.sampled_from([0, 0, 0, 1]),
+        "slow_join": st.sampled_from([0, 0, 0, 50, 300]),
+        "dup_create": st.sampled_from([0, 0, 1]),
     })
 
 
@@ -535,8 +550,26 @@ def _cid_shard(ctx: Ctx, shard: int, nshards: int) -> None:
                 ctx.violation(v)
 
 
+def _slow_shard(ctx: Ctx, shard: int, nshards: int) -> None:
+    # admission that takes time x create requests delivered twice, honest parties only
+    k = 0
+    for hops in (1, 2, 3):
+        for slow in (0, 50, 300):
+            for dup in (0, 1):
+                for seed in range(2):
+                    k += 1
+                    if k % nshards != shard or not (slow or dup):
+                        continue
+                    try:
+                        run_case(ctx, {"hops": hops, "seed": 2000 + seed, "second": bool(seed), "nht": 10, "manips": [],
+                                       "slow_join": slow, "dup_create": dup})
+                    except Violation as v:
+                        ctx.violation(v)
+
+
 def run(ctx: Ctx) -> None:
     shard_run(ctx, _grid_shard)
+    shard_run(ctx, _slow_shard)
     shard_run(ctx, _cid_shard)
     shard_run(ctx, _shard, extra=(250 if ctx.quick else 16000,))
 
